@@ -520,7 +520,7 @@ def _fix_arr_shown(case):
 class C12(Property):
     id = "C12"
     title = "a rendered form, submitted unchanged, posts the element's own flat pairs"
-    proof_module = "Proofs.C12"
+    proof_module = "Proofs.C12FormExamples"
     theorems = [
         "Flatland.C12.Proofs.flatName_spec",
         "Flatland.C12.Proofs.flatName_child",
@@ -539,21 +539,48 @@ class C12(Property):
         "Flatland.C12.Proofs.fresh_enabled",
         "Flatland.C12.Proofs.fresh_input_posts",
         "Flatland.C12.Proofs.C12_full_fails",
+        # whole form (Flatland/C12/Form.lean, Proofs/C12Form.lean)
+        "Flatland.C12.Proofs.select_carries_name",
+        "Flatland.C12.Proofs.scalar_posts",
+        "Flatland.C12.Proofs.array_posts",
+        "Flatland.C12.Proofs.form_roundtrip",
+        "Flatland.C12.Proofs.form_roundtrip_total",
+        "Flatland.C12.Proofs.form_roundtrip_fresh",
+        "Flatland.C12.Proofs.flatName_eq_joinSep",
+        "Flatland.C12.Proofs.formPairs_flatten",
+        "Flatland.C12.Proofs.form_posts_flatten",
+        "Flatland.C12.Proofs.posted_keys_are_paths",
+        "Flatland.C12.Proofs.exForm_ok",
+        "Flatland.C12.Proofs.exForm_posts",
     ]
     generated_obligations = []
     level_text = "proof"
     level_note = ("partial.  PROVED (model of the transforms + browser rule): text-like input / button / textarea carry (flat name, u) "
                   "[textarea: minus one leading LF, KF-C12-f]; checkbox/radio with a literal (scalar, Boolean, Array-of-String binds), "
                   "Boolean checkbox without literal, <option value=lit> selected iff match (any bind kind) and what it posts inside a "
-                  "named select; label for = control id for <input> controls.  EXCLUDED BY FINDINGS: password/file/image "
-                  "(KF-C12-a, refuted by C12_full_fails), options without value= (KF-C12-b/e), JoinedString binds (KF-C12-d).  ORACLE/CORRESPONDENCE ONLY: that the <select> itself carries the flat name, "
-                  "label for = id for textarea/button controls, MultiValue binds, the whole-form round trip through "
-                  "from_flat/flatten (C01's functions)")
+                  "named select; the <select> itself carries the flat name (select_carries_name); label for = control id for <input> "
+                  "controls.  WHOLE FORM (theorem + oracle): form_roundtrip / form_roundtrip_total -- for every element tree "
+                  "(Dict / List / scalar / Boolean / Array or MultiValue of strings / JoinedString) and every control group form "
+                  "mode renders per leaf (text-like input | textarea | button | radio group | select+options; Boolean checkbox; "
+                  "one checkbox or one option of a <select multiple> per Array member; author attributes such as a stale "
+                  "checked=/selected= allowed), the pairs a browser submits are exactly, in document order, (name, u) per scalar, "
+                  "(name, true) per Boolean whose text is its true value and nothing otherwise, one pair per Array member; "
+                  "formPairs_flatten: these plus the pairs of the unchecked boxes are a permutation of flatten() of the flat model "
+                  "(C01/C07's function) for the same tree, names = separator-join of the path (flatName_eq_joinSep, "
+                  "posted_keys_are_paths).  Hypotheses = decidable `formOk`: non-empty flat names; no password/file/image "
+                  "(KF-C12-a, refuted by C12_full_fails); options carry value= (KF-C12-b/e, by construction); a JoinedString only as "
+                  "a text-like input (KF-C12-d); no textarea for a text starting with LF (KF-C12-f); a radio group / select offers "
+                  "the element's text exactly once; Array members are values of their member schema; types read alike by "
+                  "str.lower and a browser.  ORACLE/CORRESPONDENCE ONLY: label for = id for textarea/button controls; that "
+                  "from_flat of the posted pairs rebuilds the element (C01's function on the real code)")
     technique = ("symbolic evaluation of the transform pipeline under Enabled/Disabled contexts + frame lemmas; browser "
                  "successful-control rule as a function; order-independence of the rule under attribute sorting")
     trusted_base = [
         "the browser's successful-control rule is written twice (Lean `submitted`, Python `posted_of`) and compared on every render",
-        "from_flat/flatten (closing the loop with C01) are exercised on the real code by the oracle only",
+        "the whole-form theorem speaks about the flat model's flatten (Flatland/Flat.lean, the subject of C01/C07); on the real "
+        "code the oracle states the same clause directly (form-pairs, form-flatten) and closes the loop through from_flat",
+        "the form theorem renders every control on one unchanged context (form_roundtrip_total: default settings leave the "
+        "context as it was); the Lean runner threads the generator through the tag calls",
     ]
     assumptions = [
         "one whole-Array bind per case at most (its repr-style display text is an input of the model)",
@@ -760,6 +787,26 @@ class C12(Property):
                 if res.get("for") != ctl.get("id"):
                     fails.append({"clause": "label-targets-control", "render": i, "expected": ctl.get("id"), "observed": res.get("for"),
                                   "markup": [ctl["out"], res["out"]], "pair": r["pair"]})
+        if case.get("form_mode") and not any(res["err"] or res["parsed"] is None for res in results):
+            # the whole-form theorem (Proofs/C12Form.lean form_roundtrip), stated on the real elements: in document order
+            # (name, u) per scalar / JoinedString, (name, true) per Boolean showing its true text and nothing otherwise,
+            # one pair per Array member; with the pairs of the unchecked boxes that is flatten() as a multiset
+            import flatland
+            own, unchecked = [], []
+            for sel, node in leaves(case["tree"]):
+                el, _ = navigate(root, case["tree"], sel)
+                if isinstance(el, flatland.Boolean):
+                    (own if el.u == el.true else unchecked).append([el.flattened_name(), el.u])
+                elif isinstance(el, flatland.Array) and not isinstance(el, flatland.JoinedString):
+                    own.extend([m.flattened_name(), m.u] for m in el)
+                else:
+                    own.append([el.flattened_name(), el.u])
+            got_pairs = [list(p) for p in posted_pairs]
+            if got_pairs != own:
+                fails.append({"clause": "form-pairs", "expected": own, "observed": got_pairs})
+            flat = sorted([k, v] for k, v in root.flatten())
+            if sorted(own + unchecked) != flat:
+                fails.append({"clause": "form-flatten", "expected": flat, "observed": sorted(own + unchecked)})
         if case.get("form_mode"):
             # closing the loop with C01: what the browser posts rebuilds the element's own flat pairs
             # (relative to from_flat(flatten()), so that C01's pruning findings do not leak into this check)
